@@ -1,1 +1,9 @@
 import Ypv.Props.C18
+#print axioms Ypv.C18.condense_is_fold
+#print axioms Ypv.C18.condense_count
+#print axioms Ypv.C18.across_is_zip
+#print axioms Ypv.C18.matrix_is_product
+#print axioms Ypv.C18.matrixRow_fold
+#print axioms Ypv.C18.matrix_all_ok
+#print axioms Ypv.C18.output_count
+#print axioms Ypv.C18.exit_codes
